@@ -27,6 +27,15 @@ Theorem C12_class_roundtrip_partial : forall (content : Type) (empty : content) 
 Proof. exact class_roundtrip_partial. Qed.
 Print Assumptions C12_class_roundtrip_partial.
 
+(* exact characterisation: with consistent derived indexes, a class of the generated table survives the
+   re-import for EVERY state if and only if InitGenesis writes it -- the lost classes are exactly the classes
+   of the regenerated table with [c_imported = false] *)
+Theorem C12_class_roundtrip_exact : forall (content : Type) (empty : content) derive (x : content), x <> empty ->
+  forall c, (forall s : mstate content, c_exported c = false -> s c = derive c (export_m content empty s)) ->
+  ((forall s : mstate content, reimport_m content empty derive s c = s c) <-> c_imported c = true).
+Proof. exact class_roundtrip_exact. Qed.
+Print Assumptions C12_class_roundtrip_exact.
+
 (* a derived index survives exactly when it agrees with what InitGenesis rebuilds from the export *)
 Theorem C12_derived_class_preserved : forall (content : Type) (empty : content) derive (s : mstate content) c,
   c_imported c = true -> c_exported c = false ->
@@ -221,6 +230,30 @@ Theorem C12_distributor_export_before_first_block : forall s, d_proposer s = Non
 Proof. exact distr_export_before_first_block. Qed.
 Print Assumptions C12_distributor_export_before_first_block.
 
+(* ---- full round-trip statements over ALL histories (induction over the operation list) for the classes the
+   tree round-trips.  Identity registrar: any sequence of registrations and deletions *)
+Theorem C12_identity_roundtrip_after_any_history : forall ops, let s := id_run ops in
+  id_records (reimport_id s) = id_records s /\ id_last (reimport_id s) = id_last s /\
+  (forall e, In e (id_index (reimport_id s)) <-> In e (id_index s)).
+Proof. exact roundtrip_id_after_history. Qed.
+Print Assumptions C12_identity_roundtrip_after_any_history.
+
+(* distributor: any non-empty sequence of blocks (any proposers, signer lists with repetitions, fees, any snap
+   period): exact round trip *)
+Theorem C12_distributor_roundtrip_after_any_history : forall snap bs, bs <> [] ->
+  reimport_distr (snd (d_run snap bs)) = Ok (snd (d_run snap bs)).
+Proof. exact roundtrip_distr_after_history. Qed.
+Print Assumptions C12_distributor_roundtrip_after_any_history.
+
+(* multistaking with re-derived counters: any sequence of pool creations, undelegations and claims: pools and
+   pending undelegations restored exactly; counters never above the original ones (equal unless the highest
+   id was claimed); freshness of the next ids is C12_reimport_with_counters_* (every state) *)
+Theorem C12_multistaking_reimport_after_any_history : forall ops, let s := ms_run ops in
+  pools (reimport_ms true s) = pools s /\ undels (reimport_ms true s) = undels s /\
+  last_pool (reimport_ms true s) <= last_pool s /\ last_undel (reimport_ms true s) <= last_undel s.
+Proof. exact reimport_ms_after_history. Qed.
+Print Assumptions C12_multistaking_reimport_after_any_history.
+
 (* ---- staking *)
 Theorem C12_staking_roundtrip_iff : forall s, reimport_st s = s <-> jail_info s = [].
 Proof. exact roundtrip_st_iff. Qed.
@@ -288,6 +321,12 @@ Example C12_nonvacuous_identity_distributor :
 Proof.
   split; [|vm_compute; reflexivity]. unfold id_wf; cbn. repeat split; try (repeat constructor; cbn; intuition discriminate); intuition.
 Qed.
+
+Example C12_nonvacuous_histories :
+  id_records (id_run [IRegister 101; IRegister 102; IRegister 201; IDelete 2; IRegister 102]) = [(1, 101); (3, 201); (4, 102)] /\
+  d_votes (snd (d_run 2 [mkDBlock 0 [0; 1; 1] 5; mkDBlock 1 [0] 7; mkDBlock 0 [0; 1] 1])) = [(0, 2); (0, 3); (1, 3)] /\
+  undels (ms_run [MPool 7; MUndelegate 1; MUndelegate 2; MClaim 2; MUndelegate 3]) = [(1, 1); (3, 3)].
+Proof. vm_compute. repeat split; reflexivity. Qed.
 
 Example C12_nonvacuous_covered_class : (* the table contains covered, derived and lost classes *)
   status_of "customgov" "ProposalsPrefix" = SCovered /\ status_of "customgov" "WhitelistRolePrefix" = SDerived /\
